@@ -1316,6 +1316,11 @@ class _Synchronizer:
         self._f_obs.set_result(step_state)
         self._f_obs = _new_f_obs
 
+        # If the supervisor is no longer running, stop() may already have looked for a pending action future
+        # (before ours was published) and will then never cancel it. stop() flips the state before it looks.
+        if self._supervisor._state not in [Async.RUNNING]:
+            self._must_reset = True
+
         # Wait for action future's result to be set with action
         if not self._must_reset:
             try:
@@ -1599,8 +1604,10 @@ class AsyncGraph:
         fs = [n._stop(timeout=timeout) for n in self._async_nodes.values()]
 
         # Initiate stop (this unblocks the root's step, that is waiting for an action).
-        if len(self._synchronizer.action) > 0:
+        try:
             self._synchronizer.action[-1].cancel()
+        except IndexError:  # No pending action (the supervisor may pop it concurrently, so do not check the length first)
+            pass
 
         # Wait for all nodes to stop
         [f.result() for f in fs]  # Wait for all nodes to stop
